@@ -237,7 +237,8 @@ def cases(tier):
   for cls in ("quantized_bits", "quantized_linear", "quantized_relu", "quantized_tanh", "quantized_sigmoid",
               "quantized_po2", "quantized_relu_po2", "binary"):
     out.append(Case(PROP, Q.QF + cls + ".__call__", "phase0", quantizer_phase0(cls), bounds=bounds,
-                    replay_kind="c08", assumptions=ASSUME, setup=phase(0), lo=-12, hi=12))
+                    replay_kind="c08", assumptions=ASSUME + ["tf.round rounds ties to even (modelled exactly here)"],
+                    setup=phase(0), lo=-130 if "po2" in cls else -12, hi=130 if "po2" in cls else 12, precise_ties=True))
   for cls in ("stochastic_binary", "stochastic_ternary"):
     out.append(Case(PROP, Q.QF + cls + ".__call__", "phase0", stoch_class_phase0(cls), bounds=bounds,
                     replay_kind="c08", assumptions=ASSUME, setup=phase(0)))
